@@ -37,6 +37,7 @@ func main() {
 	keep := flag.Bool("keep", false, "keep SMT files")
 	thorough := flag.Bool("thorough", false, "thorough tier: consult all back ends for every obligation")
 	seed := flag.Int("seed", 0, "solver random seed (thorough tier)")
+	genLocals := flag.Bool("gen-locals", false, "write the generated local-variable hint files (verif_contracts_zlocals.go) into the repository and exit")
 	debug := flag.String("debug", "", "keep SMT and solver output for failing obligations whose name contains this")
 	flag.Parse()
 
@@ -65,6 +66,13 @@ func main() {
 		defer os.RemoveAll(*work)
 	}
 	loadS := time.Since(t0).Seconds()
+	if *genLocals {
+		if err := eng.genLocals(*repo); err != nil {
+			fmt.Fprintln(os.Stderr, "govc: gen-locals:", err)
+			os.Exit(2)
+		}
+		return
+	}
 
 	want := map[string]bool{}
 	for _, p := range strings.Split(*props, ",") {
